@@ -8,7 +8,7 @@ import time
 from concurrent.futures import ThreadPoolExecutor
 
 VERIF = os.path.dirname(os.path.dirname(os.path.abspath(__file__)))
-EVIDENCE = os.path.join(VERIF, 'evidence')
+EVIDENCE = os.environ.get('VERIF_EVIDENCE_DIR') or os.path.join(VERIF, 'evidence')      # override: seeded-mutant evaluation must not clobber the committed evidence
 REPLAY = os.path.join(EVIDENCE, 'replay')
 KNOWN = os.path.join(VERIF, 'known_findings.json')
 
